@@ -4,6 +4,9 @@ import sys
 from . import runner
 
 PROPS = {
+    'C01': 'rsym.props.c01',
+    'C03': 'rsym.props.c03',
+    'C15': 'rsym.props.c15',
     'C25': 'rsym.props.c25',
 }
 
